@@ -287,6 +287,8 @@ def _branch_and_price(
             # Integer feasible - update incumbent
             candidate = _build_solution(x_vals, columns, eps)
             obj = float(sum(candidate.values()))
+            if not _covers(candidate, demands):
+                exact = False  # an integral point that misses a demand refutes nothing: this subtree stays unexplored
             if obj < best_obj - eps and _covers(candidate, demands):
                 best_solution = candidate
                 best_obj = obj
@@ -452,6 +454,27 @@ def _solve_bounded_master_lp(columns, demands, col_bounds, eps):
 
     if tab[-1][-1] < -eps:
         return [0.0] * n, [0.0] * m, float("inf")
+
+    # An artificial can end phase 1 basic at level 0 (a demand that the branching bounds let be met only with every
+    # bounded column at its cap ties with the bound rows in the ratio test).  Left in the basis it may grow in
+    # phase 2 - the row would silently stop being a constraint - so pivot it out on any structural column.
+    n_struct = n + n_surplus + n_slack + n_surplus_bounds
+    n_cols = len(tab[0])
+    for r in range(n_rows):
+        if basis[r] < n_struct:
+            continue
+        enter = next((j for j in range(n_struct) if j not in basis and abs(tab[r][j]) > eps), None)
+        if enter is None:
+            continue  # the row is zero on every structural column: redundant, cannot change any more
+        piv = tab[r][enter]
+        for j in range(n_cols):
+            tab[r][j] /= piv
+        for i in range(n_rows + 1):
+            if i != r and abs(tab[i][enter]) > eps:
+                factor = tab[i][enter]
+                for j in range(n_cols):
+                    tab[i][j] -= factor * tab[r][j]
+        basis[r] = enter
 
     # Phase 2: minimize sum of x
     for j in range(n_vars + 1):
